@@ -235,9 +235,14 @@ def rule_ipord(E, R):
                     comps = a["pat"]["pats"] if a["pat"].get("k") == "PTuple" else (a["pat"]["pats"][0]["pats"] if a["pat"].get("k") == "POr" else [])
                     some_cmp = len(comps) == 2 and local_name(c["recv"]) in pat_bindings(comps[0]) and local_name(c["args"][0]) in pat_bindings(comps[1])
                 for p in prs:
-                    tbl[p] = "Some(lhs.cmp(rhs))" if some_cmp else "?"
+                    tbl[p] = "Some(lhs.cmp(rhs))" if some_cmp else ("None" if def_path(t) == "core::option::Option::None" else "?")
             elif a["pat"].get("k") == "PWild":
                 wild_none = def_path(t) == "core::option::Option::None"
+    # mixed families: a catch-all arm yielding None, or the two mixed pairs spelled out
+    mixed = {p_: v_ for p_, v_ in tbl.items() if p_[0] != p_[1]}
+    if mixed == {("V4", "V6"): "None", ("V6", "V4"): "None"}:
+        wild_none = True
+        tbl = {p_: v_ for p_, v_ in tbl.items() if p_[0] == p_[1]}
     R.check(tbl == {("V4", "V4"): "Some(lhs.cmp(rhs))", ("V6", "V6"): "Some(lhs.cmp(rhs))"} and wild_none, rule, norm(h["path"]),
             "same-family addresses are ordered, mixed families are incomparable", "extracted %s, otherwise None=%s" % (tbl, wild_none), h["span"])
     # the trait default (used by i64 / [u8]) is partial_cmp
